@@ -46,7 +46,8 @@ type Config struct {
 	Retention bool     `json:"retention"`
 	Backup    bool     `json:"backup"` // nodes are configured with a (dummy) backup client: retention must honour the high-water mark
 	// BackupKind selects a real backup client on every candidate node, all talking to one service:
-	// "file" (litefs.FileBackupClient) or "lfsc" (lfsc.BackupClient against lab.FakeLFSC). Enables the C14 oracles.
+	// "file" (litefs.FileBackupClient), "lfsc" (lfsc.BackupClient against lab.FakeLFSC) or "lfsc-lag" (the same with a
+	// service whose acknowledged high-water mark trails its data by one upload). Enables the C14 oracles.
 	BackupKind string `json:"backup_kind,omitempty"`
 	// BackupLoop runs the store's own continuous sync loop (1 s batching delay, position map cached for the
 	// whole history) instead of explicit sync events; faults are armed by "arm:<fault>" events.
@@ -170,8 +171,8 @@ func (r *runner) setup() bool {
 		r.acked = map[string]uint64{}
 		r.viewOK = map[string]bool{}
 		r.svcDigest = map[string]string{}
-		if r.cfg.BackupKind == "lfsc" {
-			c.Net.Register("lfsc", &lab.FakeLFSC{Svc: r.svc})
+		if strings.HasPrefix(r.cfg.BackupKind, "lfsc") {
+			c.Net.Register("lfsc", &lab.FakeLFSC{Svc: r.svc, HWMLag: r.cfg.BackupKind == "lfsc-lag"})
 		}
 	}
 	c.AddNode("P", true, nil)
@@ -1128,7 +1129,7 @@ func (r *runner) attachBackup(cfg *lab.NodeConfig) {
 				panic(err)
 			}
 			inner = fc
-		case "lfsc":
+		case "lfsc", "lfsc-lag":
 			bc := lfsc.NewBackupClient(s, url.URL{Scheme: "http", Host: "lfsc"})
 			bc.HTTPClient = &http.Client{Transport: r.c.Net.Transport(name)}
 			if err := bc.Open(); err != nil {
@@ -1140,7 +1141,8 @@ func (r *runner) attachBackup(cfg *lab.NodeConfig) {
 		}
 		f := &lab.FaultClient{Inner: inner}
 		f.OnAck = func(db string, hwm ltx.TXID) {
-			if t := uint64(r.svc.Chain(db).Pos().TXID); t > r.acked[db] {
+			// what the service acknowledged is what it answered, which may trail what it holds
+			if t := uint64(hwm); t > r.acked[db] {
 				r.acked[db] = t
 			}
 			r.viewOK[name+"/"+db] = true
